@@ -491,6 +491,52 @@ func vfStopCCNCase() string {
 	return fmt.Sprintf("stopccn nr=%d %s", t.Channel.Nr(), res)
 }
 
+// sccrqdup: the same SCCRQ (same peer, same Assigned Tunnel ID, Ns 0) arrives twice, as it does when the
+// SCCRP is lost and the peer retransmits.  Printed: number of tunnels the LNS holds afterwards and the
+// number of SCCRP transmissions it made.
+func vfSccrqDupCase() string {
+	c := New(logger.Get("l2tp"))
+	peer := net.IPv4(10, 0, 0, 2).To4()
+	local := net.IPv4(10, 0, 0, 1).To4()
+	var mu sync.Mutex
+	sccrps := 0
+	c.SetSendControlFn(func(localIP, peerIP net.IP, lp, pp uint16, h l2tppkt.Header, body []byte) error {
+		if len(body) > 0 {
+			mu.Lock()
+			sccrps++
+			mu.Unlock()
+		}
+		return nil
+	})
+	c.SetLNSConfigResolver(func(string) (LNSConfig, bool) {
+		return LNSConfig{LocalHostname: "lns", ReceiveWindowSize: 16, HelloInterval: time.Hour}, true
+	})
+	body := l2tppkt.BuildSCCRQ(l2tppkt.SCCRQParams{HostName: "lac", LocalTunnelID: 99, ReceiveWindowSize: 16, FramingCaps: 3})
+	for i := 0; i < 2; i++ {
+		h := l2tppkt.NewControl(0, 0, 0, 0)
+		wire := append(h.AppendTo(nil, len(body)), body...)
+		pkt := &dataplane.ParsedPacket{
+			Protocol: models.ProtocolL2TP,
+			IPv4:     &layers.IPv4{SrcIP: peer, DstIP: local},
+			UDP:      &layers.UDP{SrcPort: 1701, DstPort: 1701},
+		}
+		pkt.UDP.Payload = wire
+		_ = c.Dispatch(pkt)
+	}
+	c.mu.RLock()
+	var ts []*Tunnel
+	for _, x := range c.tunnels {
+		ts = append(ts, x)
+	}
+	c.mu.RUnlock()
+	for _, t := range ts {
+		c.stopTunnelRunner(t.PeerIP, t.LocalID)
+	}
+	mu.Lock()
+	defer mu.Unlock()
+	return fmt.Sprintf("sccrqdup tunnels=%d", len(ts))
+}
+
 func vfDispGuard(line string) string {
 	done := make(chan string, 1)
 	go func() {
@@ -502,6 +548,8 @@ func vfDispGuard(line string) string {
 		f := strings.Fields(line)
 		if len(f) >= 2 && f[0] == "disp" {
 			done <- vfDispCase(f[1:])
+		} else if len(f) == 1 && f[0] == "sccrqdup" {
+			done <- vfSccrqDupCase()
 		} else if len(f) == 1 && f[0] == "stopccn" {
 			done <- vfStopCCNCase()
 		} else if len(f) == 1 && f[0] == "overlap" {
